@@ -160,3 +160,26 @@ Proof.
   apply retry_after_honoured; try assumption.
   apply parse_int64_decimal; try assumption. rewrite two63_val in *. lia.
 Qed.
+
+(* an unusable Retry-After (value <= 0: the HTTP-date form, garbage, "0", a negative numeral) is
+   IGNORED: the backoff is exactly the one computed for the same answer without the header *)
+Lemma retry_after_unusable_ignored guarded oob rnd e attempt c (h : str) ch :
+  parse_int64 h <= 0 ->
+  exp_backoff_gen guarded oob rnd e attempt (OStatus c h ch)
+  = exp_backoff_gen guarded oob rnd e attempt (OStatus c [] ch).
+Proof.
+  intro Hp. unfold exp_backoff_gen, retry_after_secs, generated_backoff_retry_after_ok.
+  destruct (c =? generated_backoff_retry_after_status) eqn:Ec; [|reflexivity].
+  destruct h as [|x h']; [reflexivity|].
+  destruct (parse_int64 (x :: h') >? 0) eqn:E; [lia|]. reflexivity.
+Qed.
+
+(* a Retry-After on any status other than 429 is never looked at *)
+Lemma retry_after_only_429 guarded oob rnd e attempt c (h : str) ch :
+  c <> generated_backoff_retry_after_status ->
+  exp_backoff_gen guarded oob rnd e attempt (OStatus c h ch)
+  = exp_backoff_gen guarded oob rnd e attempt (OStatus c [] ch).
+Proof.
+  intro Hc. unfold exp_backoff_gen, retry_after_secs.
+  destruct (c =? generated_backoff_retry_after_status) eqn:Ec; [lia|reflexivity].
+Qed.
